@@ -80,8 +80,8 @@ func specNameIs(nm [8]byte, tab []byte, s string) bool {
 //@ func (*CoffFormat).convertNameToBytes
 //@ props C08 C09 C13
 //@ requires stringTable != nil && offsetMap != nil
-//@ requires len(stringTable.Bytes()) < 1<<30
-//@ requires specStrTabOK(stringTable.Bytes(), offsetMap)
+//@ requires using(tablen, tabptr) len(stringTable.Bytes()) < 1<<30
+//@ requires using(tab, tabptr, tablen) specStrTabOK(stringTable.Bytes(), offsetMap)
 //@ ensures[name.short] len(name) <= 8 ==> specNameIs(result0, stringTable.Bytes(), name)
 //@ ensures[name.known] len(name) > 8 && old(specHas(offsetMap, name)) ==> specNameIs(result0, stringTable.Bytes(), name)
 //@ ensures[name.new] len(name) > 8 && !old(specHas(offsetMap, name)) ==> specNameIs(result0, stringTable.Bytes(), name)
